@@ -20,7 +20,17 @@ the normaliser does not unify (silent); different on one = VIOLATION with that m
 opaque part) = undecided, unless an input is provably lost (the result does not depend on it at all).
 
 Outcomes: VIOLATION needs a counterexample model, a lost input, or a `raise` inside the loop over the rules; code the evaluator
-cannot model (while / with / recursion / unknown containers ...) makes the affected comparison undecided, never violated.
+cannot model (while / recursion / unknown containers / context managers from libraries ...) makes the affected comparison
+undecided, never violated.  `with` over a context manager class of the analysed code is `try / except <the classes its __exit__
+suppresses> / else` (the classes are read off a trial evaluation of `__exit__` on a symbolic exception: `issubclass(exc_type, X)`,
+`isinstance(exc, X)`); `@contextmanager` generators run the body at their `yield`; `contextlib.suppress(X)` is `except X: pass`.
+Module-level constants, class attributes and parameter defaults are evaluated once per run (an object created there is shared).
+Positions of `enumerate` and slices bounded by them are exact when they refer to one sequence of distinct elements in one order
+(`S[:i] + S[i+1:]`, `del S[i]`, `S.pop(i)` = S without its i-th element); positions into another order give no verdict.
+
+The DiagramRule protocol is evaluated twice on one rule object - also with `with_base_module` / `from_file` called again between the
+two evaluations: each evaluation must equal a fresh pipeline with the configuration then in force (state derived from an earlier
+configuration - generated rules, the parsed diagram - must not survive a change of what it was derived from).
 `engine/rules/c07_variants.py` is a developer corpus of ~40 re-spellings (must stay silent) and breaking changes in the same
 idioms (must fire); run it after touching the evaluator.
 """
